@@ -34,8 +34,8 @@ CHECKS = {
              "same items. The buffered writer underneath is model-checked (MC_Writer), the decimal arithmetic of the "
              "oracles in MC_Digits.",
         design_ref="DESIGN.md §5 C03, §7",
-        note="Domain per DESIGN §7 (names without LF, symbols without blanks, ...). BTOR2 round trips are held to the contract "
-             "(value in = value out) without an independent reference reading. Values are sampled, not enumerated.",
+        note="Domain per DESIGN §7 (names without LF, symbols without blanks, ...). Values are sampled, not enumerated; the "
+             "written bytes are also read by the independent TLA+ readings (Dimacs machine, AigerRef, Btor2Ref).",
         technique="round-trip traces validated against ParserContract expectations, AigerRef and the Dimacs machine (TLC)"),
     "C04": dict(
         category="model_checking",
@@ -66,8 +66,8 @@ CHECKS = {
              "(arbitrary precision, all declared limits enforced) must equal the items of every accepted run, incl. "
              "boundary literals and delta codes of every encoded length.",
         design_ref="DESIGN.md §3.7, §5 C06",
-        note="BTOR2 numbers are u64 node ids / widths without declared limits; they are covered by C01/C03/C05 only. The "
-             "solver-log parser's literal limit is covered through the contract-level checks and the corruption catalogue.",
+        note="The reference readings are consulted for accepted inputs only (C06 speaks about accepted inputs); BTOR2 "
+             "(Btor2Ref) and the solver log (machine in Dimacs.tla) are covered through generated and mutated documents.",
         technique="TLA+ token-level grammar machine / reference reading as oracle for trace validation of boundary inputs"),
     "C07": dict(
         category="model_checking",
@@ -76,8 +76,8 @@ CHECKS = {
              "canonical rendering's items and a clean end, and Trace_Dimacs requires each run to be exactly what the token "
              "grammar machine computes; MC_Scan model-checks the whitespace/newline helpers the layout rules rest on.",
         design_ref="DESIGN.md §3.7, §5 C07",
-        note="Layouts are sampled from the layout grammar (6 per value), not enumerated; the solver log is held to the "
-             "contract only (no token-level machine).",
+        note="Layouts are sampled from the layout grammar (6 per value), not enumerated; the solver log has its own "
+             "token-level machine (Dimacs.tla, ParseLog).",
         technique="trace validation of layout variants against the Dimacs TLA+ machine and the cross-layout contract"),
     "C10": dict(
         category="model_checking",
